@@ -655,6 +655,45 @@ func thriftOps() []top {
 			e2 := n.GetMany(ps2, &o0)
 			return errClass(e1) + "," + errClass(e2)
 		}},
+		{name: "thrift.Value.GetMany(two children of field 1)", struct_: true, run: func(sd *tseed, in []byte) string {
+			// the typed value of field 1 (kinds from the descriptor), asked for two children at once in the spelling
+			// its DECLARED kind takes: two int keys / two string keys / two indexes / two field ids
+			d, err := descOf(sd.idl, sd.inner, "")
+			if err != nil {
+				return "harness-idl"
+			}
+			c := generic.NewValue(d, in).Field(1)
+			if c.IsError() {
+				return "error"
+			}
+			var ps []generic.PathNode
+			switch ft := d.Struct().FieldById(1); {
+			case ft == nil:
+				return "no-field-1"
+			case ft.Type().Type() == thrift.MAP && ft.Type().Key().Type() == thrift.STRING:
+				ps = []generic.PathNode{{Path: generic.NewPathStrKey("s1x")}, {Path: generic.NewPathStrKey("zz")}}
+			case ft.Type().Type() == thrift.MAP && ft.Type().Key().Type().IsInt():
+				ps = []generic.PathNode{{Path: generic.NewPathIntKey(1)}, {Path: generic.NewPathIntKey(2)}, {Path: generic.NewPathIntKey(300)}}
+			case ft.Type().Type() == thrift.LIST || ft.Type().Type() == thrift.SET:
+				ps = []generic.PathNode{{Path: generic.NewPathIndex(0)}, {Path: generic.NewPathIndex(1)}}
+			case ft.Type().Type() == thrift.STRUCT:
+				ps = []generic.PathNode{{Path: generic.NewPathFieldId(1)}, {Path: generic.NewPathFieldId(2)}}
+			default:
+				return "scalar-field-1"
+			}
+			e1 := c.GetMany(ps, &o0)
+			tree := generic.PathNode{Node: c.Node, Next: ps}
+			e2 := c.GetTree(&tree, &o0)
+			// the same value reached through GetByPath (its kinds are taken from the descriptor)
+			cls := errClass(e1) + "," + errClass(e2)
+			if c2 := generic.NewValue(d, in).GetByPath(generic.NewPathFieldId(1)); !c2.IsError() {
+				for i := range ps {
+					ps[i].Node = generic.Node{}
+				}
+				cls += "," + errClass(c2.GetMany(ps, &o0))
+			}
+			return cls
+		}},
 		{name: "thrift.Value.MarshalTo", struct_: true, run: func(sd *tseed, in []byte) string {
 			d, err := descOf(sd.idl, sd.inner, "")
 			if err != nil {
